@@ -459,6 +459,9 @@ func (rd *renderer) text(s string) {
 		if mode == 4 {
 			mode = rng.IntN(4)
 		}
+		if strings.Contains(chunk, PIMark) {
+			mode = 0 // the mark stands for a processing instruction, which only plain character data can be interrupted by
+		}
 		switch mode {
 		case 1:
 			if !strings.Contains(chunk, "]]>") && !strings.Contains(chunk, "\r") && !strings.HasSuffix(chunk, "]") {
